@@ -1,11 +1,19 @@
-use hxlib::util::{Args, Sink};
+use crate::world::Op;
+use hxlib::util::{Args, Rng, Sink};
 
 pub fn run(args: &Args) -> i32 {
     let rt = tokio::runtime::Builder::new_multi_thread().worker_threads(4).enable_all().build().unwrap();
     let mut sink = Sink::new("C03", &args.out);
+    let mut rng = Rng::new(args.seed);
     rt.block_on(async {
         crate::unit::verdict_matrix(&mut sink, "C03").await;
+        let kinds = ["append", "delete", "update", "overwrite", "restore", "config", "compact", "add_column", "drop_column", "create_index", "merge_insert_full", "merge_insert_partial",
+                     "delete", "update", "append"];
+        // fixed reproduction of F14 first: add a non-null column, then append from a handle older than that
+        let forced = vec![vec![(Op::AddColumn, true), (Op::Append(vec![200, 201]), true)]];
+        crate::world::histories(&mut sink, &mut rng, &kinds, args.vol(40, 400), "C03", forced).await;
     });
+    sink.notes.push("e2e: histories of 2-4 public-API transactions from stale/fresh handles, one-step serial-replay oracle per commit".into());
     sink.finish();
     0
 }
